@@ -145,6 +145,11 @@ def run(ctx):
         sysm.append({"type": "object", "$defs": {"Identified": ident2, "Named": named},
                      "properties": {"item": {"allOf": [{"$ref": "#/$defs/Identified"}, {"$ref": "#/$defs/Named"}]}, "rev": {"allOf": [{"$ref": "#/$defs/Named"}, {"$ref": "#/$defs/Identified"}]}}})
         sysm.append({"type": "object", "properties": {"item": {"allOf": [ident2, named]}, "list": {"type": "array", "items": {"allOf": [named, ident2]}}}})
+    for a, b in (("id", "ID"), ("name", "Name"), ("userId", "userid")):
+        for req in ([a], [b]):
+            o = {"type": "object", "properties": {a: {"type": "string"}, b: {"type": "integer"}, "z": {"type": "boolean"}}, "required": req}
+            sysm.append(o)
+            sysm.append({"type": "object", "properties": {"acc": o, "list": {"type": "array", "items": o}}, "required": ["acc"]})
     sysm = sysm + ann
     sysm = sysm + shared + [collide_root(ob(["p"]), ob(["q"]), required=True), collide_root(ob(["p", "q"]), ob(["p"])), collide_root(ob(["q"]), ob(["p", "q"]), key="w")]
     n = 30 if ctx.tier == "quick" else 400
